@@ -227,3 +227,11 @@ CHECKS["C12"]["text"] += (" In addition (code->spec): random TensorProtos (every
                           "thorough) are decoded by the real onnx.TensorFromProto, logged as little-endian byte images and validated by TLC against "
                           "Trace_Decode.tla, which recomputes Decode.DecodeAllowed for every event. Every value case is also decoded by 8 goroutines at once.")
 CHECKS["C12"]["technique"] += "; trace validation of recorded random decodes against Trace_Decode.tla; concurrent-decode mode"
+CHECKS["C17"]["text"] += (" The stress recorder also runs four generated models (two dilated convolutions, a raw-data Constant, recurrent cells with weight "
+                          "states and peepholes, linear heads) and random DAG programs over the operator catalogue; a second stage without the race detector "
+                          "runs the generated models and programs in a hot loop (8 goroutines, 70-120 short Runs each) and compares every result with the "
+                          "sequential baseline; every model is first given a Run that fails inside an operator. A fatal error of the Go runtime raised "
+                          "while the faulting goroutine executes the library (concurrent map access) counts as a violation.")
+for _pid in ("C03", "C04", "C05", "C06", "C07", "C08", "C09", "C10", "C11"):
+    CHECKS[_pid]["text"] += (" Every case is additionally applied twice to the same input tensor objects (second result judged) and run as a model "
+                             "whose every input is a weight, twice.")
